@@ -3,7 +3,8 @@
    (first byte, remaining length, maximum-packet-size refusal, packet boundaries); totality of the
    body decoders is C27; the absence of run-time panics elsewhere in the handlers and the isolation
    of other connections are exercised dynamically by the `bytes` engine, not proved. *)
-From MV Require Import Base.Val Codec.Vbi Codec.VbiProofs IO.Framing IO.FramingProofs.
+From MV Require Import Base.Val Codec.Vbi Codec.VbiProofs IO.Framing IO.FramingProofs IO.FramingStream.
+From Coq Require Import Lia.
 Open Scope N_scope.
 
 (* The first byte of every packet is accepted exactly as the standard's flag table says. *)
@@ -38,6 +39,61 @@ Theorem C28_framing_partial : forall maxsize hb n e body rest h,
   read_frame maxsize (hb :: e ++ body ++ rest) = Frame h (vbi_min_len n) body rest.
 Proof. exact frame_complete. Qed.
 
+(* WHOLE STREAMS, any number of packets (induction over the packet list).  good_stream maxsize fr bs: bs is the
+   concatenation of complete packets within the limit whose headers/lengths are fr.  Whatever follows them
+   (nothing, a truncated packet, garbage, an over-size packet), the read loop delivers exactly those packets and
+   then behaves on the tail as on a stream of its own: no byte of a packet is ever taken for part of another. *)
+Theorem C28_stream_complete : forall maxsize fr bs, good_stream maxsize fr bs ->
+  forall tail fuel, wf_bytes tail -> (length fr <= fuel)%nat ->
+  read_frames fuel maxsize (bs ++ tail) =
+  (fr ++ fst (read_frames (fuel - length fr) maxsize tail), snd (read_frames (fuel - length fr) maxsize tail)).
+Proof. exact frames_of_good_prefix. Qed.
+
+(* with the fuel the engine uses (one more than the stream length) a stream of good packets is consumed completely *)
+Theorem C28_stream_exact : forall maxsize fr bs, good_stream maxsize fr bs ->
+  read_frames (S (length bs)) maxsize bs = (fr, 0).
+Proof. exact frames_of_good_stream. Qed.
+
+(* the first packet after the good ones that is not a frame decides the end of the connection, after every good
+   packet has been delivered *)
+Theorem C28_stream_bad_tail : forall maxsize fr bs tail fuel, good_stream maxsize fr bs -> wf_bytes tail ->
+  (length fr < fuel)%nat ->
+  forall code, match read_frame maxsize tail with
+               | Frame _ _ _ _ => False | NeedMore => code = 0 | BadHeader => code = 1
+               | BadLength => code = 2 | TooLarge => code = 3 end ->
+  read_frames fuel maxsize (bs ++ tail) = (fr, code).
+Proof. exact bad_tail_after_good. Qed.
+
+(* conversely, for EVERY byte stream: what the loop delivers is a segmentation of a prefix of the stream into packets
+   with a standard first byte and a standard length field, each within the limit, and a non-zero final code is the
+   verdict of read_frame on the remaining bytes *)
+Theorem C28_stream_sound : forall maxsize fuel bs fr fin,
+  wf_bytes bs -> read_frames fuel maxsize bs = (fr, fin) ->
+  exists tail, segmented maxsize fr bs tail /\
+    (fin = 0 \/ (fin = 1 /\ read_frame maxsize tail = BadHeader) \/ (fin = 2 /\ read_frame maxsize tail = BadLength)
+     \/ (fin = 3 /\ read_frame maxsize tail = TooLarge)).
+Proof. exact frames_sound_stream. Qed.
+
+(* non-vacuity: PINGREQ, PUBLISH(3 bytes) is a good stream at limit 5; followed by a header announcing 127 bytes it
+   ends with "too large" after both packets *)
+Example C28_stream_nonvacuous :
+  good_stream 5 [({| fh_type := 12; fh_qos := 0; fh_dup := false; fh_retain := false |}, 0);
+                 ({| fh_type := 3; fh_qos := 0; fh_dup := false; fh_retain := false |}, 3)] [192; 0; 48; 3; 0; 1; 97]
+  /\ fst (read_frames 9 5 ([192; 0; 48; 3; 0; 1; 97] ++ [48; 127; 0])) =
+       [({| fh_type := 12; fh_qos := 0; fh_dup := false; fh_retain := false |}, 0);
+        ({| fh_type := 3; fh_qos := 0; fh_dup := false; fh_retain := false |}, 3)]
+  /\ snd (read_frames 9 5 ([192; 0; 48; 3; 0; 1; 97] ++ [48; 127; 0])) = 3.
+Proof.
+  split; [|vm_compute; split; reflexivity].
+  assert (W : forall l, forallb (fun b => b <? 256) l = true -> wf_bytes l).
+  { intros l H. apply Forall_forall. intros x Hx. rewrite forallb_forall in H. apply N.ltb_lt. exact (H x Hx). }
+  apply (gs_cons 5 192 0 [0] [] _ _ [48; 3; 0; 1; 97]);
+    [lia | vm_compute; discriminate | reflexivity | reflexivity | reflexivity | apply W; reflexivity | right; cbn; lia |].
+  apply (gs_cons 5 48 3 [3] [0; 1; 97] _ [] []);
+    [lia | vm_compute; discriminate | reflexivity | reflexivity | reflexivity | apply W; reflexivity | right; cbn; lia |].
+  constructor.
+Qed.
+
 (* non-vacuity: PINGREQ followed by a PUBLISH header; a 3-byte body refused at limit 4 *)
 Example C28_nonvacuous :
   read_frame 0 [192; 0; 48; 3; 0; 1; 97] = Frame {| fh_type := 12; fh_qos := 0; fh_dup := false; fh_retain := false |} 1 [] [48; 3; 0; 1; 97]
@@ -49,3 +105,7 @@ Print Assumptions C28_header_is_standard.
 Print Assumptions C28_maxsize_refused_before_body.
 Print Assumptions C28_frame_sound.
 Print Assumptions C28_framing_partial.
+Print Assumptions C28_stream_complete.
+Print Assumptions C28_stream_exact.
+Print Assumptions C28_stream_bad_tail.
+Print Assumptions C28_stream_sound.
